@@ -265,7 +265,13 @@ func ruleCallbackBeforeMutation(h *H, rule string) {
 		for _, s := range h.P.AllCalls(ir.InPkg("server/kv"), spec) {
 			h.Fn(ir.FuncName(s.Fn))
 			// a per-entry step written as a local closure stands at its call site
-			if up := liftThroughLocalClosure(s.Call); up != s.Call {
+			hasMutation := func(fn *ssa.Function) bool {
+				if pair.cb == "OnDeleteWithEntry" {
+					return len(h.callsOrHelpers(fn, pair.mut, batchDelete)) > 0
+				}
+				return len(h.callsOrHelpers(fn, pair.mut)) > 0
+			}
+			if up := liftThroughLocalClosure(s.Call, hasMutation); up != s.Call {
 				s.Call, s.Fn = up, up.Parent()
 				h.Fn(ir.FuncName(s.Fn))
 			}
